@@ -56,7 +56,16 @@ pub fn normalise(msg: &str) -> String {
 
 /// Silence the default panic printer (cases are isolated with catch_unwind and reported as JSON).
 pub fn quiet_panics() {
-    std::panic::set_hook(Box::new(|_| {}));
+    std::panic::set_hook(Box::new(|_| {
+        PANICS.fetch_add(1, std::sync::atomic::Ordering::SeqCst);
+    }));
+}
+
+static PANICS: std::sync::atomic::AtomicU64 = std::sync::atomic::AtomicU64::new(0);
+
+/// number of panics the process has seen so far (including those caught by tokio at task boundaries)
+pub fn panic_count() -> u64 {
+    PANICS.load(std::sync::atomic::Ordering::SeqCst)
 }
 
 /// Record the case in progress (read by the driver when the process dies on a fatal signal).
